@@ -743,3 +743,198 @@ Proof.
   - rewrite Hlo, Hhi. exact Hrange.
   - rewrite Ht. exact Hall.
 Qed.
+
+(* ====================================================================================== *)
+(* 4''. plain-output corollaries: only run_S, nth_error and positions                       *)
+(* ====================================================================================== *)
+
+Lemma two_positions {A} (l : list A) i1 i2 x y :
+  (i1 < i2)%nat -> nth_error l i1 = Some x -> nth_error l i2 = Some y ->
+  exists p1 p2 p3, l = p1 ++ x :: p2 ++ y :: p3
+    /\ length p1 = i1 /\ length (p1 ++ x :: p2) = i2.
+Proof.
+  intros Hlt H1 H2.
+  destruct (nth_error_split l i1 H1) as (p1 & q & -> & Hl1).
+  rewrite nth_error_app2 in H2 by lia.
+  replace (i2 - length p1)%nat with (S (i2 - length p1 - 1)) in H2 by lia.
+  cbn [nth_error] in H2.
+  destruct (nth_error_split q _ H2) as (p2 & p3 & -> & Hl2).
+  exists p1, p2, p3. repeat split; auto. rewrite app_length. simpl. lia.
+Qed.
+
+Lemma steps_S_out_shift mode st l1 l2 i :
+  nth_error (snd (steps_S mode st (l1 ++ l2))) (length l1 + i)
+  = nth_error (snd (steps_S mode (fst (steps_S mode st l1)) l2)) i.
+Proof.
+  rewrite steps_S_app. cbn [snd].
+  rewrite nth_error_app2; rewrite steps_S_length; [|lia].
+  f_equal. lia.
+Qed.
+
+Lemma steps_S_out_at mode pre o post st :
+  nth_error (snd (steps_S mode st (pre ++ o :: post))) (length pre)
+  = Some (snd (step_S mode (fst (steps_S mode st pre)) o)).
+Proof.
+  rewrite <- (Nat.add_0_r (length pre)), steps_S_out_shift, steps_S_cons. reflexivity.
+Qed.
+
+Lemma entry_out_mk (m : smap Z Z) (a : aiter Z) r : entry_out (m, a, r) = out_of r.
+Proof. reflexivity. Qed.
+
+(* two Next calls of iterator j at given positions: their entries in the trace, in the same
+   order, and their outputs *)
+Lemma trace_S_two mode j p1 p2 p3 st a :
+  nth_error (s_its st) j = Some a ->
+  exists t1 e1 t2 e2 t3,
+    trace_S mode st (p1 ++ TIterNext j :: p2 ++ TIterNext j :: p3) j = t1 ++ e1 :: t2 ++ e2 :: t3
+    /\ nth_error (snd (steps_S mode st (p1 ++ TIterNext j :: p2 ++ TIterNext j :: p3)))
+                 (length p1) = Some (entry_out e1)
+    /\ nth_error (snd (steps_S mode st (p1 ++ TIterNext j :: p2 ++ TIterNext j :: p3)))
+                 (length (p1 ++ TIterNext j :: p2)) = Some (entry_out e2).
+Proof.
+  intros H.
+  destruct (trace_S_at mode j p1 (p2 ++ TIterNext j :: p3) st a H) as (aA & HA & _ & HoutA).
+  assert (Eops : p1 ++ TIterNext j :: p2 ++ TIterNext j :: p3
+                 = (p1 ++ TIterNext j :: p2) ++ TIterNext j :: p3)
+    by (rewrite <- app_assoc; reflexivity).
+  destruct (trace_S_at mode j (p1 ++ TIterNext j :: p2) p3 st a H) as (aB & HB & HtrB & HoutB).
+  destruct (trace_S_at mode j p1 p2 st a H) as (aC & HC & HtrC & _).
+  rewrite HA in HC. injection HC as <-.
+  rewrite <- Eops in HtrB, HoutB. rewrite HtrC, <- app_assoc in HtrB.
+  do 5 eexists. split; [exact HtrB|]. split.
+  - rewrite entry_out_mk. exact HoutA.
+  - rewrite entry_out_mk. exact HoutB.
+Qed.
+
+Lemma out_of_end r : out_of r = OEnd -> r = None.
+Proof. destruct r; [discriminate|reflexivity]. Qed.
+
+Lemma out_of_pair r k v : out_of r = OPair k v -> exists kv, r = Some kv /\ fst kv = k.
+Proof. destruct r as [kv|]; [|discriminate]. intros [= <- _]. exists kv. auto. Qed.
+
+(* C02_sticky_end, stated on the outputs of a history only: once a TIterNext j answers OEnd,
+   every later TIterNext j answers OEnd, whatever happens in between. *)
+Theorem run_S_sticky_end : forall mode ops j i1 i2,
+  (i1 < i2)%nat ->
+  nth_error ops i1 = Some (TIterNext j) ->
+  nth_error ops i2 = Some (TIterNext j) ->
+  nth_error (run_S mode ops) i1 = Some OEnd ->
+  nth_error (run_S mode ops) i2 = Some OEnd.
+Proof.
+  intros mode ops j i1 i2 Hlt Ho1 Ho2 He1.
+  destruct (two_positions ops i1 i2 _ _ Hlt Ho1 Ho2) as (p0 & p2 & p3 & -> & Hl1 & Hl2).
+  unfold run_S in *.
+  set (stA := fst (steps_S mode s0 p0)) in *.
+  (* the iterator exists at the first position, otherwise the answer would be OBad *)
+  assert (Hout1 : OEnd = snd (step_S mode stA (TIterNext j))).
+  { pose proof (steps_S_out_at mode p0 (TIterNext j) (p2 ++ TIterNext j :: p3) s0) as Hx.
+    rewrite Hl1, He1 in Hx. injection Hx as Hx. exact Hx. }
+  destruct (nth_error (s_its stA) j) as [a|] eqn:Ea.
+  2:{ rewrite (step_S_next_none mode stA j Ea) in Hout1. discriminate. }
+  clear Hout1.
+  destruct (trace_S_two mode j [] p2 p3 stA a Ea) as (t1 & e1 & t2 & e2 & t3 & Htr & Hx1 & Hx2).
+  cbn [app] in Htr, Hx1, Hx2.
+  (* positions inside the whole history *)
+  assert (P1 : nth_error (snd (steps_S mode stA (TIterNext j :: p2 ++ TIterNext j :: p3))) 0
+               = Some OEnd).
+  { unfold stA. rewrite <- steps_S_out_shift, Nat.add_0_r, Hl1. exact He1. }
+  assert (P2 : nth_error (snd (steps_S mode s0 (p0 ++ TIterNext j :: p2 ++ TIterNext j :: p3))) i2
+               = nth_error (snd (steps_S mode stA (TIterNext j :: p2 ++ TIterNext j :: p3)))
+                           (length (TIterNext j :: p2))).
+  { unfold stA. rewrite <- steps_S_out_shift. f_equal. rewrite <- Hl2, app_length. reflexivity. }
+  rewrite P2, Hx2. cbn [length] in Hx1. rewrite Hx1 in P1. injection P1 as P1.
+  (* the session *)
+  destruct (trace_S_is_session mode j (TIterNext j :: p2 ++ TIterNext j :: p3) stA a Ea)
+    as (rs & Hrs).
+  rewrite Htr in Hrs. symmetry in Hrs.
+  assert (He : e_out e1 = None).
+  { unfold entry_out in P1. destruct (e_out e1); [discriminate|reflexivity]. }
+  pose proof (ai_run_sticky_end (mode_cmp mode) (mode_cmp_laws mode) rs (s_m stA) a
+                t1 e1 (t2 ++ e2 :: t3) (steps_S_sorted mode p0) Hrs He) as Hall.
+  apply Forall_app in Hall. destruct Hall as [_ Hall]. apply Forall_inv in Hall.
+  unfold entry_out. rewrite Hall. reflexivity.
+Qed.
+
+Lemma count_new_app l1 l2 : count_new (l1 ++ l2) = (count_new l1 + count_new l2)%nat.
+Proof.
+  induction l1 as [|o l1 IH]; [reflexivity|].
+  destruct o; simpl; rewrite IH; reflexivity.
+Qed.
+
+(* before its creation iterator j answers OBad *)
+Lemma run_S_before_creation mode ops1 rev lo hi ops2 i :
+  (i < S (length ops1))%nat ->
+  nth_error (ops1 ++ TIterNew rev lo hi :: ops2) i = Some (TIterNext (count_new ops1)) ->
+  nth_error (run_S mode (ops1 ++ TIterNew rev lo hi :: ops2)) i = Some OBad.
+Proof.
+  intros Hi Ho. remember (count_new ops1) as j eqn:Ej.
+  destruct (Nat.eq_dec i (length ops1)) as [->|Hne].
+  - rewrite nth_error_app2, Nat.sub_diag in Ho by lia. discriminate.
+  - rewrite nth_error_app1 in Ho by lia.
+    destruct (nth_error_split ops1 i Ho) as (pre & post & Eo & Hl). subst ops1.
+    rewrite <- app_assoc, <- app_comm_cons. unfold run_S.
+    rewrite <- Hl, steps_S_out_at. f_equal.
+    rewrite step_S_next_none; [reflexivity|].
+    apply nth_error_None. rewrite steps_S_its_length.
+    rewrite count_new_app in Ej. simpl in Ej. simpl. lia.
+Qed.
+
+(* C02_monotone_in_bounds, stated on the outputs of a history only: two answers OPair of the
+   iterator created by TIterNew rev lo hi carry keys strictly ordered in its direction of travel
+   and inside its bounds. *)
+Theorem run_S_monotone mode ops1 rev lo hi ops2 i1 i2 k1 v1 k2 v2 :
+  let ops := ops1 ++ TIterNew rev lo hi :: ops2 in
+  let j := count_new ops1 in
+  (i1 < i2)%nat ->
+  nth_error ops i1 = Some (TIterNext j) ->
+  nth_error ops i2 = Some (TIterNext j) ->
+  nth_error (run_S mode ops) i1 = Some (OPair k1 v1) ->
+  nth_error (run_S mode ops) i2 = Some (OPair k2 v2) ->
+  dcmp (mode_cmp mode) rev k1 k2 = Lt
+  /\ in_range Z (mode_cmp mode) lo hi k1 = true
+  /\ in_range Z (mode_cmp mode) lo hi k2 = true.
+Proof.
+  intros ops j Hlt Ho1 Ho2 Hr1 Hr2.
+  assert (Hge : (S (length ops1) <= i1)%nat).
+  { destruct (le_lt_dec (S (length ops1)) i1) as [Hle|Hlt1]; [exact Hle|exfalso].
+    pose proof (run_S_before_creation mode ops1 rev lo hi ops2 i1 Hlt1 Ho1) as Hb.
+    fold ops in Hb. congruence. }
+  set (n := S (length ops1)) in *.
+  assert (Eops : ops = (ops1 ++ [TIterNew rev lo hi]) ++ ops2)
+    by (unfold ops; rewrite <- app_assoc; reflexivity).
+  assert (Hn : length (ops1 ++ [TIterNew rev lo hi]) = n)
+    by (rewrite app_length; simpl; unfold n; lia).
+  set (st1 := hist_st mode ops1 rev lo hi).
+  (* move to positions inside ops2 *)
+  assert (Hpos : forall i, (n <= i)%nat ->
+            nth_error ops i = nth_error ops2 (i - n)
+            /\ nth_error (run_S mode ops) i = nth_error (snd (steps_S mode st1 ops2)) (i - n)).
+  { intros i Hi. split.
+    - rewrite Eops, nth_error_app2; rewrite Hn; [reflexivity|lia].
+    - unfold run_S. rewrite Eops. replace i with (length (ops1 ++ [TIterNew rev lo hi]) + (i - n))%nat
+        at 1 by lia.
+      rewrite steps_S_out_shift. reflexivity. }
+  destruct (Hpos i1 Hge) as [E1 F1]. destruct (Hpos i2 ltac:(lia)) as [E2 F2].
+  rewrite E1 in Ho1. rewrite E2 in Ho2. rewrite F1 in Hr1. rewrite F2 in Hr2.
+  destruct (two_positions ops2 (i1 - n) (i2 - n) _ _ ltac:(lia) Ho1 Ho2)
+    as (p1 & p2 & p3 & Hops2 & Hl1 & Hl2).
+  pose proof (hist_st_iter mode ops1 rev lo hi) as Hit. fold st1 j in Hit.
+  destruct (trace_S_two mode j p1 p2 p3 st1 _ Hit) as (t1 & e1 & t2 & e2 & t3 & Htr & Hx1 & Hx2).
+  rewrite <- Hops2, Hl1 in Hx1. rewrite <- Hops2, Hl2 in Hx2. rewrite <- Hops2 in Htr.
+  rewrite Hx1 in Hr1. rewrite Hx2 in Hr2. injection Hr1 as Hr1. injection Hr2 as Hr2.
+  unfold entry_out in Hr1, Hr2.
+  destruct e1 as [[m1 a1] r1]. destruct e2 as [[m2 a2] r2]. unfold e_out in Hr1, Hr2. cbn [snd] in Hr1, Hr2.
+  destruct r1 as [y1|]; [|discriminate]. destruct r2 as [y2|]; [|discriminate].
+  injection Hr1 as Hk1 _. injection Hr2 as Hk2 _.
+  destruct (hist_monotone_in_bounds mode ops1 rev lo hi ops2) as [Hsort Hin].
+  unfold hist_trace in Hsort, Hin. fold st1 j in Hsort, Hin. rewrite Htr in Hsort, Hin.
+  assert (Ey : yields (t1 ++ (m1, a1, Some y1) :: t2 ++ (m2, a2, Some y2) :: t3)
+               = yields t1 ++ y1 :: yields t2 ++ y2 :: yields t3).
+  { unfold yields. rewrite flat_map_app. simpl. rewrite flat_map_app. reflexivity. }
+  rewrite Ey in Hsort, Hin.
+  apply StronglySorted_mid in Hsort.
+  apply Forall_app in Hin. destruct Hin as [_ Hin].
+  inversion Hin as [|z l Hy1 Hin2]; subst z l.
+  apply Forall_app in Hin2. destruct Hin2 as [_ Hin2]. apply Forall_inv in Hin2.
+  rewrite Hk1 in Hsort, Hy1. rewrite Hk2 in Hsort, Hin2. auto.
+Qed.
